@@ -4,6 +4,8 @@ Requests:
   `c17 <topic hex> <op>:<ver>:<off>:<hwm> <body hex> <k> <next body hex> => <res> <next> <deliver>`
       model: the operation of Model/ConnOps.lean on the stream `(frame 1 body).take k` (then EOF); for k = frame length the
       stream continues with the follow-up list-offsets frame.  `next` = outcome of a list-offsets operation afterwards.
+  `c2 <topic hex> <A>:<ver>:<off>:<hwm> <bodyA hex> <B>:… <bodyB hex> <k> => <resA> <resB>`   two callers with both requests
+      in flight on ONE Conn, the response stream lost after k bytes: nobody may hang (read lock released on every exit).
   `rr <api key> <ver> <frame len> <k> <reader> => <ok <consumed>|err|panic>`
       model: protocol.ReadResponse under its contract (Props/C17 `Decoder`): error on every strict prefix, on the full
       frame ok having consumed exactly the frame.
@@ -33,12 +35,35 @@ def monitorConn (a : OpInst) (cut : Bool) (impl : String) : Option Bool :=
 def modelConn (topic : Bytes) (a : OpInst) (k : Nat) (nextBody : Bytes) : Option String :=
   let fa := frame 1 a.body
   let stream := if k ≥ fa.length then fa ++ frame 2 nextBody else fa.take k
-  match runInst topic a ⟨stream, 1, false⟩ with
+  match runInstL false topic a (⟨stream, 1, false⟩, false) with
   | none => none
   | some (ra, c1) =>
-    match runInst topic ⟨"listOffsets", 1, 0, 0, nextBody⟩ c1 with
+    match runInstL false topic ⟨"listOffsets", 1, 0, 0, nextBody⟩ c1 with
     | some (rn, _) => some s!"{showOutcome ra} {showOutcome rn} {if a.name == "fetch" then "prefix" else "-"}"
     | none => none
+
+/-- two callers on one Conn, both requests written before any response: responses arrive in request order, the stream
+is lost after k bytes (k ≥ both frames: not at all) -/
+def modelTwo (topic : Bytes) (a b : OpInst) (k : Nat) : Option String :=
+  let stream := (frame 1 a.body ++ frame 2 b.body).take k
+  match runInstL true topic a (⟨stream, 1, false⟩, false) with
+  | none => none
+  | some (ra, c1) =>
+    match runInstL true topic b c1 with
+    | some (rb, _) => some s!"{showOutcome ra} {showOutcome rb}"
+    | none => none
+
+/-- monitor for two callers (implementation's output only): nobody hangs or panics; a caller whose response was not
+fully delivered gets an error; a caller whose response was fully delivered before the loss gets a result. -/
+def monitorTwo (a b : OpInst) (k : Nat) (impl : String) : Bool :=
+  match words impl with
+  | [ra, rb] =>
+    let la := a.body.length + 8
+    let lb := b.body.length + 8
+    isDone ra && isDone rb &&
+    (if k < la then isFailStr ra || ra.startsWith "kafka:" else !isFailStr ra || (specJudge a ra).isNone) &&
+    (if k < la + lb then isFailStr rb || rb.startsWith "kafka:" else true)
+  | _ => false
 
 /-! Transport path -/
 
@@ -84,6 +109,13 @@ def step (line : String) : String :=
         | some m, some h => s!"model={m} holds={if h then 1 else 0}"
         | none, _ => "bad-op"
         | _, none => "bad-frame: body is not an encoding of the Spec layout"
+      | _, _, _, _ => "bad-args"
+    | ["c2", t, sa, ha, sb, hb, ks] =>
+      match ofHex t, parseInst sa ha, parseInst sb hb, ks.toNat? with
+      | some topic, some a, some b, some k =>
+        match modelTwo topic a b k with
+        | some m => s!"model={m} holds={if monitorTwo a b k impl then 1 else 0}"
+        | none => "bad-op"
       | _, _, _, _ => "bad-args"
     | ["tp", sc, ls, ks] =>
       match ls.toNat?, ks.toNat? with
